@@ -35,6 +35,12 @@ def check_equation_array_properties(equation, particle_arrays):
     """
     p_arrays = dict((x.name, x) for x in particle_arrays)
     _src, _dest = get_arrays_used_in_equation(equation)
+    # The precomputed symbols (VIJ, HIJ, RHOIJ etc.) used by the equation
+    # implicitly need arrays too, the generated code sets up pointers for
+    # these as well, so check for them.
+    _pre_src, _pre_dest = Group([equation]).get_array_names()
+    _src.update(_pre_src)
+    _dest.update(_pre_dest)
     if equation.dest not in p_arrays:
         msg = "ERROR: Equation {eq_name} has invalid dest: '{dest}'".format(
             eq_name=equation.name, dest=equation.dest
